@@ -26,8 +26,9 @@ pub struct C08Prop;
 pub static C08: C08Prop = C08Prop;
 
 pub fn generate(src: &mut Src, tier: Tier) -> (Vec<Item>, usize) {
+    let split_word = src.below(1 << 16);
     let items = defs::sequence(src, &SeqCfg { max_len: tier.pick(14, 24), body_pct: 25 });
-    let split = src.below(items.len() + 1);
+    let split = split_word * (items.len() + 1) >> 16;
     (items, split)
 }
 
@@ -210,7 +211,7 @@ impl Property for C08Prop {
         "random sequences of <= 14 (quick) / <= 24 (thorough) instructions, 75% definitions spread evenly over the 8 definition kinds (PRAGMA EXTERN named/unnamed, DECLARE, DEFFRAME over 4 identifiers, DEFWAVEFORM, DEFCAL, DEFCAL MEASURE, DEFGATE of all four kinds, DEFCIRCUIT) with keys from pools of 2-6 and 4+ values per key, 25% body instructions; each sequence built by 10 routes in-process (from_instructions x2, add_instruction loop, add_instructions, From<Vec>, A+B and A+=B at a random split, clone, rebuild from to_instructions, parse of the text) and, for 1 case in 8, in a second process. Non-trivial = >= 2 distinct frames or >= 1 redefinition of a key; distinct by sequence hash."
     }
     fn max_words(&self) -> usize {
-        24 * 8 + 4
+        2 * (24 * 8 + 4)
     }
     fn cases(&self, tier: Tier) -> u64 {
         tier.pick(60_000, 1_500_000)
